@@ -546,7 +546,7 @@ PROPS["C20"]["assumptions"] = PROPS["C20"]["assumptions"] + [
     "the concurrent run tolerates 64 objects (goroutine start-up) and calls 65..2000 inconclusive",
 ]
 PROPS["C16"]["assumptions"] = PROPS["C16"]["assumptions"] + [
-    "'time bounded by the input length' after a long history is judged on two floors that machine load cannot raise: the minimum over 7 repetitions of the first fresh parse after 400000 hits, and the median of 301 fresh parses; above 1 ms and above 100x the same statistic before the history is a violation",
+    "'time bounded by the input length' after a long history is judged on two floors that machine load cannot raise: the minimum over 7 repetitions of (400000 hits, then the slowest of 400 consecutive fresh parses), and the median of 301 fresh parses; above 1 ms and above 100x the same statistic before the history is a violation",
     "the process resolver is replaced by a counting one; a parser has no reason to contact it",
 ]
 
